@@ -160,6 +160,109 @@ def _takes_one_more_token(name, tokens):
     return tokens[-1] == '=' and name in ('def', 'file', 'env', 'timeout', 'stdin')
 
 
+_CMP = {'==', '!=', '<', '<=', '>', '>='}
+_PLAIN_WORD_RE = re.compile(r'^[A-Za-z0-9_.-]+$')
+
+
+def _expression_kind(name, tokens):
+    """-> kind of the matcher expression that the instruction ends with (and the index of its first token)"""
+    if name == 'exit-code':
+        return 'int', 1
+    if name in ('stdout', 'stderr'):
+        return 'text', 1
+    if name in ('contents', 'dir-contents') and len(tokens) > 2 and tokens[2] == ':':
+        return ('text' if name == 'contents' else 'files'), 3
+    if name == 'def' and len(tokens) > 3 and tokens[3] == '=' and tokens[1] in ('integer-matcher', 'text-matcher',
+                                                                                 'line-matcher'):
+        return tokens[1].split('-')[0].replace('integer', 'int'), 4
+    return None, None
+
+
+def is_modelled_expression(kind, toks):
+    """The matcher expressions of the modelled sub-language (`help syntax INTEGER-MATCHER` etc.):
+    E := T ('||' T)* ; T := F ('&&' F)* ; F := '!' F | '(' E ')' | PRIMITIVE(kind).  True iff toks is exactly one E."""
+    pos = [0]
+
+    def peek():
+        return toks[pos[0]] if pos[0] < len(toks) else None
+
+    def take():
+        pos[0] += 1
+        return toks[pos[0] - 1]
+
+    def prim(k):
+        t = peek()
+        if k == 'int':
+            if t in _CMP:
+                take()
+                return peek() is not None and take().isdigit()
+            return False
+        if k == 'text':
+            if t == 'is-empty':
+                take()
+                return True
+            if t == 'equals':
+                take()
+                return peek() is not None and bool(_HEREDOC_RE.match(take()))
+            return False
+        if k == 'line':
+            if t == 'line-num':
+                take()
+                return prim('int')
+            if t == 'contents':
+                take()
+                return prim('text')
+            return False
+        if k == 'files':
+            if t == 'is-empty':
+                take()
+                return True
+            if t == 'matches':
+                take()
+                if peek() == '-full':
+                    take()
+                if peek() != '{':
+                    return False
+                depth = 0
+                while peek() is not None:  # (the lines between the braces are checked line by line)
+                    x = take()
+                    depth += (x == '{') - (x == '}')
+                    if depth == 0:
+                        return True
+            return False
+        return False
+
+    def f(k):
+        t = peek()
+        if t == '!':
+            take()
+            return f(k)
+        if t == '(':
+            take()
+            return e(k) and peek() == ')' and bool(take())
+        return prim(k)
+
+    def t_(k):
+        if not f(k):
+            return False
+        while peek() == '&&':
+            take()
+            if not f(k):
+                return False
+        return True
+
+    def e(k):
+        if not t_(k):
+            return False
+        while peek() == '||':
+            take()
+            if not t_(k):
+                return False
+        return True
+
+    return e(kind) and pos[0] == len(toks)
+
+
 class Ambiguous(Exception):
     """the manual gives no single reading of the document from here on"""
 
@@ -444,11 +547,18 @@ class Reader:
         braces = 0
         k = start
         cont = False
+        stdin_seen = False
+        in_list = False
+        all_toks = []
         while True:
             toks = tokens if k == start else lines[k].split()
             if toks:
+                all_toks.extend(toks)
                 if braces > 0 and not _IN_BRACES_RE.match(' '.join(toks)):
                     raise Ambiguous('instruction-outside-model')  # only these file specs / conditions are modelled
+                if in_list and not all(_PLAIN_WORD_RE.match(x) for x in (toks[:-1] if toks[-1] == '\\' else toks)):
+                    raise Ambiguous('instruction-outside-model')  # (reserved words, quotes ... in a continued list)
+                in_list = False
                 depth += toks.count('(') - toks.count(')')
                 if depth < 0:
                     raise bad('unbalanced-parenthesis')
@@ -492,16 +602,22 @@ class Reader:
                     if k + 1 >= n or is_blank(lines[k + 1]) or is_comment(lines[k + 1]):
                         raise Ambiguous('list-continuation-dangling')
                     cont = True
+                    in_list = True
                 elif toks[-1] in ('||', '&&', '!'):
                     cont = True
                     self.labels.add('operator-continuation')
                 else:
                     cont = depth > 0 or braces > 0
-            if not cont and name == 'run' and k + 1 < n and lines[k + 1].split()[:1] == ['-stdin']:
+            if not cont and name == 'run' and not stdin_seen and k + 1 < n and \
+                    lines[k + 1].split()[:1] == ['-stdin']:
                 # help syntax program: STDIN "must appear on a separate line"
                 self.labels.add('program-stdin-on-next-line')
+                stdin_seen = True
                 cont = True
             if not cont:
+                kind, at = _expression_kind(name, tokens)
+                if kind is not None and not is_modelled_expression(kind, all_toks[at:]):
+                    raise Ambiguous('instruction-outside-model')
                 return k + 1
             k += 1
             if k >= n:
